@@ -194,7 +194,7 @@ func TestC19(t *testing.T) {
 }
 
 func c19body(t *testing.T, rep *lib.Report, journal func(string)) {
-	rep.Rule = "sequential: all histories of <=3 Add over payloads {empty, a, two lines, YAML-looking, 1504 bytes} (quick: the third is always 'a') x a gap of 0 / 1 s / 25 min between steps, real wal.WAL over the reference store inside a synctest bubble; concurrent: 2 (thorough 3) appenders with Touch/GetAttr/Put gated, all interleavings + tick placements; after each history ListEntries from every issued token and synthetic tokens (±1s, +15min, +20min-1s, +20min, +20min+1s, ±30min: inside, at the edges of and beyond the 20-minute look-back window) x max in {1,2,3,1000}; oracle: unique KSUID tokens ordered across seconds, listing = appended entries with token >= back-dated start and includes every entry whose append started within 20 minutes before the start token's time, token order, payload byte-identical; distinct = distinct histories/outcomes"
+	rep.Rule = "sequential: all histories of <=3 Add over payloads {empty, a, two lines, YAML-looking, 1504 bytes} (quick: the third is always 'a') x a gap of 0 / 0.5 s / 1 s / 25 min between steps, starting 600 ms into a second, real wal.WAL over the reference store inside a synctest bubble; concurrent: 2 (thorough 3) appenders with Touch/GetAttr/Put gated, all interleavings + tick placements; after each history ListEntries from every issued token and synthetic tokens (±1s, +15min, +20min-1s, +20min, +20min+1s, ±30min: inside, at the edges of and beyond the 20-minute look-back window) x max in {1,2,3,1000}; oracle: unique KSUID tokens ordered across seconds, listing = appended entries with token >= back-dated start and includes every entry whose append started within 20 minutes before the start token's time, token order, payload byte-identical; distinct = distinct histories/outcomes"
 	names := []string{"empty", "a", "twolines", "yamlish", "big"}
 	// ---- sequential histories
 	var hist [][]string
@@ -214,7 +214,9 @@ func c19body(t *testing.T, rep *lib.Report, journal func(string)) {
 		}
 	}
 	gen(nil)
-	gaps := []time.Duration{0, time.Second, 25 * time.Minute} // same second / next second / idle for longer than the look-back window
+	// same instant / half a second later (the history starts 600 ms into a second, so this crosses a second boundary with
+	// less than a second elapsed) / a full second later / idle for longer than the look-back window
+	gaps := []time.Duration{0, 500 * time.Millisecond, time.Second, 25 * time.Minute}
 	for _, h := range hist {
 		nt := 1
 		for i := 1; i < len(h); i++ {
@@ -226,6 +228,7 @@ func c19body(t *testing.T, rep *lib.Report, journal func(string)) {
 			lib.Bubble(t, func() {
 				mutable, ws := lib.NewMemStore("mutable"), lib.NewMemStore("wal")
 				w := wal.New(mutable, ws, wal.Logger(nopLogger))
+				time.Sleep(600 * time.Millisecond)
 				var adds []c19add
 				tk := ticks
 				for i, n := range h {
@@ -243,7 +246,7 @@ func c19body(t *testing.T, rep *lib.Report, journal func(string)) {
 				tag := "sequential"
 				rp := map[string]interface{}{"history": h, "tick_mask": ticks}
 				c19check(adds, mutable, ws, tag, func(sig, detail string) {
-					rep.Violate(sig, fmt.Sprintf("history %v gaps(base 3: same second / 1s / 25min)=%d: %s", h, ticks, detail), rp)
+					rep.Violate(sig, fmt.Sprintf("history %v gaps(base 4: 0 / 0.5s / 1s / 25min)=%d: %s", h, ticks, detail), rp)
 				})
 				rep.Eval(1)
 				rep.AddStates(int64(len(h)+1), int64(len(h)), 1)
